@@ -748,6 +748,13 @@ func (fr *Frame) runSites(ins ssa.Instruction, when string, pc string, st *State
 					env.vars[name] = tv{t: fr.v1(v), ty: v.Type()}
 				}
 			}
+			if old, ok := fr.alias[name]; ok {
+				if _, shadow := env.vars[old]; !shadow {
+					if _, lz := env.lazy[old]; !lz {
+						env.vars[old] = tv{t: fr.v1(v), ty: v.Type()}
+					}
+				}
+			}
 		}
 		// range indices of the enclosing loops: #i (innermost), #i<ordinal>
 		var inner *loopInfo
@@ -965,8 +972,14 @@ func (fr *Frame) bindParams(env *SpecEnv) {
 			}
 			if l, ok := fr.locs[a]; ok {
 				env.lazy[a.Comment] = l
+				if old, ok := fr.alias[a.Comment]; ok {
+					env.lazy[old] = l
+				}
 			} else if _, ok := fr.vals[a]; ok {
 				env.lazy[a.Comment] = fr.vc.locOfPtr(fr.v1(a), a.Type())
+				if old, ok := fr.alias[a.Comment]; ok {
+					env.lazy[old] = env.lazy[a.Comment]
+				}
 			}
 		}
 	}
